@@ -1,19 +1,34 @@
 /- GENERATED: instance obligations for one logic, discharged by kernel evaluation.
-   `X ⊆ known`: every failing row is a committed known finding (Ptx/Gen/Known.lean). -/
+   `S` = the logic with its DOCUMENTED tables (Ptx/Sem/Spec.lean); rules, closure, trunk and frames
+   are what the translator read off the code.  `X ⊆ known`: every failing row is a committed
+   known finding (Ptx/Gen/Known.lean, generated from known_findings.json). -/
 import Ptx.Gen.L_L3
 import Ptx.Gen.Known
 import Ptx.Sem.Subset
+import Ptx.Props.C01
 namespace Ptx.Gen.Obl.L3
 open Ptx
 
-theorem tables_total : Gen.L3.tablesTotalB = true := by decide +kernel
-theorem rules_exact : subsetB Gen.L3.badRules (Known.badRules "L3") = true := by decide +kernel
-theorem rules_sound : subsetB Gen.L3.unsoundRules (Known.unsoundRules "L3") = true := by decide +kernel
-theorem rules_total : subsetB Gen.L3.missingRules (Known.missingRules "L3") = true := by decide +kernel
-theorem rules_local : Gen.L3.nonLocalRules = [] := by decide +kernel
-theorem closure_total : Gen.L3.closureTotalB = true := by decide +kernel
-theorem closure_exact : subsetB Gen.L3.badClosure (Known.badClosure "L3") = true := by decide +kernel
-theorem read_total : Gen.L3.readTotalB = true := by decide +kernel
-theorem read_exact : subsetB Gen.L3.badRead (Known.badRead "L3") = true := by decide +kernel
+/-- a modal / first-order extension has exactly the truth-functional tables of its base (L3) -/
+theorem base_tables : Gen.L3.tables.sameTF Gen.L3.tables = true := by decide +kernel
+theorem spec_defined : Gen.L3.specDefinedB = true := by decide +kernel
+theorem tables_spec : subsetB Gen.L3.tableDiff (Known.tableDiff "L3") = true := by decide +kernel
+theorem defined_ops : Gen.L3.tables.definedOpsBad = [] := by decide +kernel
+theorem tables_total : Gen.L3.sem.tablesTotalB = true := by decide +kernel
+theorem rules_exact : subsetB Gen.L3.sem.badRules (Known.badRules "L3") = true := by decide +kernel
+theorem rules_sound : subsetB Gen.L3.sem.unsoundRules (Known.unsoundRules "L3") = true := by decide +kernel
+theorem rules_total : subsetB Gen.L3.sem.missingRules (Known.missingRules "L3") = true := by decide +kernel
+theorem rules_local : Gen.L3.sem.nonLocalRules = [] := by decide +kernel
+theorem closure_total : Gen.L3.sem.closureTotalB = true := by decide +kernel
+theorem closure_exact : subsetB Gen.L3.sem.badClosure (Known.badClosure "L3") = true := by decide +kernel
+theorem read_total : Gen.L3.sem.readTotalB = true := by decide +kernel
+theorem read_exact : subsetB Gen.L3.sem.badRead (Known.badRead "L3") = true := by decide +kernel
+theorem sound_core : Gen.L3.sem.soundCoreB = true := by decide +kernel
+
+/-- C01 for this logic: a closed tableau reached by any legal derivation has no countermodel. -/
+theorem c01_valid_sound (arg : Argument) (t : Tableau)
+    (hd : Deriv Gen.L3.sem.soundPart.noQuantPart (trunk Gen.L3.sem arg) t) (hclosed : t.allClosed = true)
+    (M : Struct) (hM : M.Interp Gen.L3.sem) (e : Env M.D) (w0 : M.W) : ¬ Countermodel Gen.L3.sem M e w0 arg :=
+  Props.C01.C01_valid_sound_partial Gen.L3.sem sound_core arg t hd hclosed M hM e w0
 
 end Ptx.Gen.Obl.L3
